@@ -92,11 +92,17 @@ def classify(sig, e, events, line, rej=None):
                     shapes.add("eof-context")
                 elif end + e["ctx"] + 1 <= nlines and got + "\n" == text(cm["sl"], end + e["ctx"] + 1):
                     shapes.add("extra-line")
+                elif got + "\n" == exp:
+                    # the right lines, but without the newline terminating the last one (the unlimited
+                    # chunk reached an unterminated end of file, so no line is miscounted)
+                    shapes.add("no-final-newline")
                 else:
                     shapes.add("other")
         if shapes == {"eof-context"}:
             return "C22:chunk:shortened-content:eof-context"
         if shapes == {"extra-line"}:
             return "C22:chunk:shortened-content:extra-line"
+        if shapes == {"no-final-newline"}:
+            return "C22:chunk:shortened-content:no-final-newline"
         return "C22:chunk:shortened-content"
     return sig
